@@ -10,7 +10,12 @@ import (
 )
 
 // phiLeaves collects the non-phi leaves of a value through phi nodes.
-func phiLeaves(v ssa.Value) map[string]bool {
+// phiLeavesNN: as phiLeaves, with results of unexported helpers named by the (non-nil) value they return.
+func phiLeavesNN(v ssa.Value) map[string]bool { return phiLeavesWith(v, descNN) }
+
+func phiLeaves(v ssa.Value) map[string]bool { return phiLeavesWith(v, desc) }
+
+func phiLeavesWith(v ssa.Value, desc func(ssa.Value) string) map[string]bool {
 	out := map[string]bool{}
 	seen := map[ssa.Value]bool{}
 	var walk func(x ssa.Value)
